@@ -23,9 +23,13 @@ def world():
             {"name": "rpx9", "secret": "s-px9", "transport": "prefix", "prefix_id": 9, "state": "valid", "phantom": "P1"},
             {"name": "rtracked", "secret": "s-tr", "transport": "min", "prefix_id": 0, "state": "tracked", "phantom": "P1"},
             {"name": "rone", "secret": "s-one", "transport": "min", "prefix_id": 0, "state": "valid", "phantom": "P2"},
-            {"name": "ronlytracked", "secret": "s-ot", "transport": "obfs4", "prefix_id": 0, "state": "tracked", "phantom": "P3"}]
-    # P0 carries no registration at all
-    return {"phantoms": {"P0": "192.122.190.9", "P1": "192.122.190.10", "P2": "192.122.190.11", "P3": "192.122.190.12"}, "regs": regs}
+            {"name": "ronlytracked", "secret": "s-ot", "transport": "obfs4", "prefix_id": 0, "state": "tracked", "phantom": "P3"},
+            {"name": "rmin6", "secret": "s-min6", "transport": "min", "prefix_id": 0, "state": "valid", "phantom": "V6a"},
+            {"name": "rpx6", "secret": "s-px6", "transport": "prefix", "prefix_id": 4, "state": "valid", "phantom": "V6a"},
+            {"name": "robfs6", "secret": "s-obfs6", "transport": "obfs4", "prefix_id": 0, "state": "valid", "phantom": "V6a"}]
+    # P0 and V6c carry no registration at all
+    return {"phantoms": {"P0": "192.122.190.9", "P1": "192.122.190.10", "P2": "192.122.190.11", "P3": "192.122.190.12",
+                         "V6a": "2001:48a8:687f:1::a:1", "V6c": "2001:48a8:687f:1::c:3"}, "regs": regs}
 
 
 def gen_cases(ctx, budget):
@@ -35,7 +39,7 @@ def gen_cases(ctx, budget):
 
     def add(st, cuts=(), dst=None, **kw):
         n[0] += 1
-        cases.append(cc.case("c03-%d" % n[0], dst or rng.choice(["P0", "P1", "P1", "P2", "P3"]), st, cuts, **kw))
+        cases.append(cc.case("c03-%d" % n[0], dst or rng.choice(["P0", "P1", "P1", "P2", "P3", "V6a", "V6a", "V6c"]), st, cuts, **kw))
 
     def rcuts(L, k=None):
         if L < 2:
@@ -78,6 +82,10 @@ def gen_cases(ctx, budget):
     for dst in ("P0", "P2", "P3"):
         add(cc.stream(**{"from": "rmin", "early": 40, "late": 10}), rcuts(60), dst=dst)
         add(cc.stream(**{"from": "rpx1", "client_px": 1, "early": 40}), rcuts(100), dst=dst)
+    # genuine IPv4-phantom flights replayed against IPv6 phantoms and vice versa
+    for frm, kw2, dsts in (("rmin", {}, ("V6a", "V6c")), ("rmin6", {}, ("P1", "P0", "V6c")), ("rpx6", {"client_px": 4}, ("P1", "V6c"))):
+        for dst in dsts:
+            add(cc.stream(**dict({"from": frm, "early": 40, "late": 10}, **kw2)), rcuts(60), dst=dst)
     # obfs4: flips in the representative and in the mark (no registration's mark matches any more)
     for be in rng.sample(range(16 * 8, 32 * 8), 6):
         add(cc.stream(**{"from": "robfs", "flip_end": be}), [rng.choice([64, 500])], dst="P1")
